@@ -132,4 +132,75 @@ mod verif_c20 {
         assert!(out[i] == want[i], "SPEC: stack over AllocVec differs");
         core::mem::forget(out);
     }
+
+    /// The Flavor trait's contract for modifiers: handing over a block with ONE try_extend call is the same byte-stream
+    /// transformation as pushing its bytes one by one - for every block length up to 72 (beyond any internal chunk size such as 64).
+    /// The block contents are a fixed pattern with zeros sprinkled in; the length is symbolic.
+    fn pattern() -> [u8; 72] {
+        let mut d = [0u8; 72];
+        let mut i = 0;
+        while i < 72 {
+            d[i] = if i % 7 == 3 { 0 } else { (i as u8).wrapping_mul(37).wrapping_add(1) };
+            i += 1;
+        }
+        d
+    }
+    fn crc_extend_vs_pushes(len: usize) {
+        let d = pattern();
+        let mut a = CrcModifier::new(HVec::<80>::new(), C8.digest());
+        a.try_extend(&d[..len]).unwrap();
+        let oa = a.finalize().unwrap();
+        let mut b = CrcModifier::new(HVec::<80>::new(), C8.digest());
+        let mut i = 0;
+        while i < 72 {
+            if i < len {
+                b.try_push(d[i]).unwrap();
+            }
+            i += 1;
+        }
+        let ob = b.finalize().unwrap();
+        assert!(oa.len() == ob.len(), "SPEC: CrcModifier: one try_extend differs from byte-wise pushes (length)");
+        let mut k = 0;
+        while k < 80 {
+            if k < oa.len() {
+                assert!(oa[k] == ob[k], "SPEC: CrcModifier: one try_extend differs from byte-wise pushes (data or checksum)");
+            }
+            k += 1;
+        }
+    }
+    macro_rules! crc_extend_len {
+        ($name:ident, $($len:expr),*) => {
+            /// fully concrete block lengths around plausible internal chunk sizes (CBMC executes these concretely)
+            #[kani::proof]
+            #[kani::unwind(82)]
+            fn $name() {
+                $( crc_extend_vs_pushes($len); )*
+            }
+        };
+    }
+    crc_extend_len!(extend_equals_pushes_crc, 0, 1, 9, 17, 33, 65, 72);
+
+    #[kani::proof]
+    #[kani::unwind(75)]
+    fn extend_equals_pushes_cobs() {
+        let d = pattern();
+        let len: usize = kani::any();
+        kani::assume(len <= 72);
+        let mut a = Cobs::try_new(HVec::<90>::new()).unwrap();
+        a.try_extend(&d[..len]).unwrap();
+        let oa = a.finalize().unwrap();
+        let mut b = Cobs::try_new(HVec::<90>::new()).unwrap();
+        let mut i = 0;
+        while i < 72 {
+            if i < len {
+                b.try_push(d[i]).unwrap();
+            }
+            i += 1;
+        }
+        let ob = b.finalize().unwrap();
+        assert!(oa.len() == ob.len(), "SPEC: Cobs: one try_extend differs from byte-wise pushes (length)");
+        let k: usize = kani::any();
+        kani::assume(k < oa.len());
+        assert!(oa[k] == ob[k], "SPEC: Cobs: one try_extend differs from byte-wise pushes");
+    }
 }
